@@ -65,6 +65,7 @@ class MeshLine1(MeshSimplex, Mesh):
 
     def _adaptive(self, marked):
         p, t = self.doflocs, self.t
+        marked = np.unique(marked)
 
         mid = range(len(marked)) + np.max(t) + 1
         nonmarked = np.setdiff1d(np.arange(t.shape[1]), marked)
